@@ -151,14 +151,15 @@ def cases(draw) -> t.Any:
     srcs = [s for s in ORDER if draw(st.booleans())]
     pos = draw(st.sampled_from(POSITIONS))
     form = draw(st.sampled_from(FORMS))
-    direction = draw(st.sampled_from(['from', 'into', 'from', 'into', 'ctor', 'ctor-outer']))
+    direction = draw(st.sampled_from(['from', 'into', 'from', 'into', 'ctor', 'ctor-outer', 'replace-outer']))
     if direction == 'into' and draw(st.integers(0, 3)) == 3:
         pos = draw(st.sampled_from(ANY_POSITIONS))
     if direction == 'ctor':
         # the constructor of the containing class "performs conversion" of its arguments: with the field's own converter, else the
         # class's handlers (own or inherited), else the type's protocol / built-ins / registered handlers; no call, no enclosing class
         pos = draw(st.sampled_from(['direct', 'List', 'Dict', 'Optional', 'Tuple', 'Bag']))
-    if direction == 'ctor-outer':
+    if direction in ('ctor-outer', 'replace-outer'):
+        # (replace-outer: the same through __replace__ on an existing instance, which converts its changes as the constructor would)
         # the enclosing class is constructed from the same data from_data would be given: the nested class's own handlers still
         # come before those of the class around it (no call-level handlers exist on this path)
         pos = draw(st.sampled_from(['direct', 'List', 'Dict', 'Optional', 'Tuple']))
@@ -294,10 +295,14 @@ def check(case: t.Any, ctx: Ctx) -> None:
         data['inner'] = [{'m': wrap_data}] if inner_wrap == 'List' else {'m': wrap_data}
 
     ctx.evaluated()
-    if direction == 'ctor-outer':
+    if direction in ('ctor-outer', 'replace-outer'):
         present_o = [s_ for s_ in ORDER if s_ in srcs and s_ != 'C']
         expected_o = present_o[0] if present_o else None
-        (k, got) = outcome(lambda: Outer(**data))
+        if direction == 'replace-outer':
+            blank = Outer.make_unchecked(**{k_: None for k_ in data})
+            (k, got) = outcome(lambda: blank.__replace__(**data))
+        else:
+            (k, got) = outcome(lambda: Outer(**data))
         if expected_o is None:
             if k == 'ok':
                 ctx.fail('no-source-no-converter', f"ctor-outer:{pos}", f"{ident}: no source provides a converter for M, but Outer(inner=...) returned {short(got, 100)}")
